@@ -7,6 +7,14 @@ CLAIMED = {
  "C09": dict(text="Bounded model checking, complete over its finite domain: aln_param_init for every (biotype, type) pair with arbitrary float penalties, set_aln_type on every string up to the length bound, run_kalign's argument plumbing with arbitrary stub answers. The solver decides all values; counterexamples are replayed natively.",
              note="Trusted: CBMC's C semantics and IEEE-754 model, empty-body message functions, a textbook strstr model; reference parameter tables written from README.md and the published matrices (sum / weighted-sum fingerprints). getopt parsing in main() is outside.",
              ref="DESIGN.md §4 C09"),
+ "C14": dict(text="Bounded model checking: the three alphabets kalign_run uses are built by the real create_alphabet and the solver shows, for every letter and every case/T-U respelling of a sequence of bounded length, that convert_msa_to_internal yields the same defined class (< L) - everything downstream of the conversion reads only those classes.",
+             note="Trusted: CBMC semantics, small-capacity msa objects, empty message functions. The DP itself is C07; kind detection for IUPAC-rich nucleotide input is outside (C13 premise).", ref="DESIGN.md §4 C14"),
+ "C11": dict(text="Bounded model checking of lib/src/bpm.c: bpm_block equals a textbook semi-global DP for every text/pattern over 13 symbols up to the size bound (all length pairs enumerated), bpm and bpm_256 (AVX2 intrinsics modelled) equal bpm_block, calc_distance passes the longer sequence as text.",
+             note="Trusted: CBMC bit-vector semantics; the AVX2 intrinsic model (difftested against hardware in setup). Patterns spanning several 64-bit blocks are only covered by mostly-concrete instances (thorough) - stated gap.", ref="DESIGN.md §4 C11"),
+ "C10": dict(text="Inductive step decided by the solver: from ANY pre-state satisfying the row invariant and ANY valid column string, the real make_seq/update_gaps move every residue of a finished group to the image of its old column (whole gap columns only). One step covers merge histories of any length by induction over the guide tree.",
+             note="Trusted: the invariant (gaps>=0, row length, no all-gap column) is what the previous step establishes - asserted as post-condition of the same harness; path validity contract asserted on the DP in C07. Sizes bounded (groups <=3+2, <=6 columns).", ref="DESIGN.md §4 C10"),
+ "C01": dict(text="Bounded model checking of each stage between the DP path and the caller's rows: path completion for every valid path, the merge step from any valid state, gap-vector -> row rendering and the array API for symbolic residue bytes, zero-length removal and rank restoration with the real comparators.",
+             note="Trusted: composition over the guide tree is a paper induction (DESIGN.md §5); qsort model; small-capacity msa objects; DP returns a valid path (C07). Writers are C15/C06.", ref="DESIGN.md §4 C01"),
 }
 NA_REASON = "check not built yet in this revision (see DESIGN.md §4 for the planned harness); not claimed until its quick tier passes on the unchanged tree"
 
